@@ -46,4 +46,5 @@ de49e21 C28 a banned namespace and a key of exactly NamespaceOffset+8 bytes
 3d68e02 C17 a MANIFEST cut inside a change set that is longer than the rest of the file
 1f81c9a C23 EncryptionKeyRotationDuration longer than the time since 1970 on a new database
 f91e4b0 C23 a read-only open after the data-key rotation interval has elapsed
+ae7c466 C31 a merge function that returns one of its arguments and more than 100 un-merged versions
 L
